@@ -330,8 +330,22 @@ def run(ctx):
                 best = max(sw, key=lambda b: len(f.dominators().get(b, set())))
                 if switch_on_label(db, f, best):
                     dep = True
-        ok = has_len and dep
-        res.site(key, True, {"site": f.loc(s["sp"]), "depends_on_len": has_len, "depends_on_label_presence": dep, "verdict": "ok" if ok else "VIOLATION"})
+        # a block closed by a JUMP / JUMP-WHEN / JUMP-UNLESS / HALT also contains that instruction: the increment has a
+        # literal `+ 1` (an Add with a constant operand); a block closed by the next LABEL does not
+        in_term_arm = any(in_span(s["sp"], a_["body_sp"]) and (k2.arm_variants(a_, INSTRUCTION)[0] & set(EXPECT)) for a_ in m["arms"])
+        const_one = False
+        for l2 in slice_locals(f, inc_l, stop={acc}):
+            for d in f.defs().get(l2, []):
+                if d[0] == "s" and d[3]["rv"]["k"] == "bin" and d[3]["rv"]["op"].startswith("Add"):
+                    for side in (d[3]["rv"]["a"], d[3]["rv"]["b"]):
+                        kk = side.get("k")
+                        if kk is not None and str(kk.get("int", kk.get("s", ""))).split("_")[0] == "1":
+                            const_one = True
+        term_ok = const_one == in_term_arm
+        ok = has_len and dep and term_ok
+        res.site(key, True, {"site": f.loc(s["sp"]), "depends_on_len": has_len, "depends_on_label_presence": dep, "closes_on_a_terminator": in_term_arm, "adds_one_for_the_terminator": const_one, "verdict": "ok" if ok else "VIOLATION"})
+        if has_len and dep and not term_ok:
+            res.find(key, f.loc(s["sp"]), "the running offset is advanced %s a literal `+ 1` at a site that closes a block %s a terminator instruction: later blocks are located one position too %s" % ("without" if in_term_arm else "with", "on" if in_term_arm else "without", "early" if in_term_arm else "late"), "`X 0; JUMP @a; LABEL @a; Y 0`: the second block reports offset 1, its LABEL is body[2]")
         if not ok:
             missing = [n for n, v in (("the closed block's instruction count", has_len), ("whether the closed block had a label", dep)) if not v]
             res.find(key, f.loc(s["sp"]), "when a block is closed here, the next block's offset is advanced by an amount that does not depend on %s" % " / ".join(missing), "`X 0; LABEL @a; Y 0`: the second block reports offset 2 although its first element (the label) is at body position 1")
